@@ -107,9 +107,13 @@ pub fn finish_case(g: Gen, profile: &'static str) -> Case {
 }
 
 pub fn generate(prop: &str, _tier: Tier, rng: &mut Rng, _idx: u64) -> Case {
+    let deep = _tier == Tier::Thorough && _idx % 4 == 3;
     match prop {
         "C05" | "C06" => {
             let mut cfg = GenCfg::conformant(rng);
+            if deep {
+                cfg.deepen();
+            }
             if prop == "C06" {
                 cfg.w_ops = [rng.range(1, 3) as u32, 3, 4, 0, 0, rng.range(0, 1) as u32];
                 cfg.all_reasons = true;
@@ -138,6 +142,9 @@ pub fn generate(prop: &str, _tier: Tier, rng: &mut Rng, _idx: u64) -> Case {
             cfg.w_ops = [rng.range(0, 2) as u32, 4, 4, rng.range(0, 1) as u32, 0, rng.range(0, 1) as u32];
             cfg.max_ops = rng.urange(2, 16);
             cfg.all_reasons = true;
+            if deep {
+                cfg.deepen();
+            }
             let r = cfg.receive_max;
             let mut g = Gen::new(cfg, rng);
             g.preamble();
@@ -159,6 +166,9 @@ pub fn generate(prop: &str, _tier: Tier, rng: &mut Rng, _idx: u64) -> Case {
             }
             if prop == "C07" {
                 cfg.inbound_multi_ids = rng.chance(1, 3);
+            }
+            if deep {
+                cfg.deepen();
             }
             if prop == "C08" {
                 cfg.writer_tweaks = rng.coin();
